@@ -10,6 +10,7 @@ def main():
     nsh = 16
     jobs = [("gen", sh) for sh in ([chk.seed % nsh, (chk.seed + 5) % nsh, (chk.seed + 11) % nsh] if q else range(nsh))]
     jobs += [("rank", sh) for sh in range(4)]
+    jobs += [("battery", sh) for sh in range(4)]
     base = os.path.join(chk.outdir, "walk")
     nf = 4 if q else 16
     vlib.harness(hb, ["walk", "--seed", chk.seed, "--events", 2500 if q else 20000, "--files", nf, "--out", base])
@@ -21,8 +22,8 @@ def main():
             p = "%s.%d" % (base, sh)
         else:
             cfg = os.path.join(chk.outdir, "gsee_%s_%d.cfg" % (kind, sh))
-            games.gen_cfg(cfg, {"SHARD": sh, "NSHARDS": 4 if kind == "rank" else nsh, "DENSITY": 8 if q else 1,
-                                "MODE": "rank" if kind == "rank" else "general"}, "INIT Init\nNEXT Next\n")
+            games.gen_cfg(cfg, {"SHARD": sh, "NSHARDS": 4 if kind in ("rank", "battery") else nsh, "DENSITY": 8 if q else 1,
+                                "MODE": kind if kind in ("rank", "battery") else "general"}, "INIT Init\nNEXT Next\n")
             g = vlib.tlc("Gen_See", cfg=cfg, timeout=3400, xmx="2g")
             if g.error:
                 raise vlib.ToolError("Gen_See: " + g.error)
